@@ -379,7 +379,13 @@ func c03Guard(p *Prog, r *Report) {
 	good := true
 	detail := ""
 	for _, snap := range []int64{-1, 5} {
-		for _, latest := range []int64{0, 3, 5, 7} {
+		for _, latest0 := range []int64{0, 3, 5, 7, 100 + 0, 100 + 3, 100 + 5, 100 + 7} {
+			// (second half: the transaction's own write of the key is newer than everything, 8, instead of older, 4 -
+			// the answer must not depend on it)
+			latest, own := latest0%100, int64(4)
+			if latest0 >= 100 {
+				own = 8
+			}
 			env := &Env{P: p, Pkg: fi.Pkg, Vars: map[types.Object]*Val{}, Body: fi.Decl.Body, RangeOnce: true}
 			fv := &Val{Fields: map[string]*Val{"TxId": {Nil: true}, "BeforeSeq": {Nil: true}}}
 			if snap >= 0 {
@@ -391,6 +397,10 @@ func c03Guard(p *Prog, r *Report) {
 			env.Hook = func(env *Env, e ast.Expr) (*Val, bool) {
 				if c, ok := e.(*ast.CallExpr); ok && env.Pkg == fi.Pkg && p.callIs(fi.Pkg, c, kFileLatest) {
 					return &Val{Fields: map[string]*Val{"Seq": intVal(latest)}}, true
+				}
+				// the version the transaction itself wrote (n.V() of the popped node)
+				if c, ok := e.(*ast.CallExpr); ok && env.Pkg == fi.Pkg && p.callIs(fi.Pkg, c, "(*internal/model/core.Node).V") {
+					return &Val{Fields: map[string]*Val{"Seq": intVal(own), "Key": strVal("k")}}, true
 				}
 				return nil, false
 			}
@@ -411,7 +421,7 @@ func c03Guard(p *Prog, r *Report) {
 			want := snap >= 0 && latest > snap
 			if got != want {
 				good = false
-				detail = fmt.Sprintf("snapshot point %s, committed latest %d: conflict=%v, required %v", s, latest, got, want)
+				detail = fmt.Sprintf("snapshot point %s, committed latest %d, own write %d: conflict=%v, required %v", s, latest, own, got, want)
 			}
 		}
 	}
